@@ -1907,6 +1907,10 @@ func (s *Netceptor) runProtocol(ctx context.Context, sess BackendSession, bi *Ba
 	for {
 		select {
 		case data := <-ci.ReadChan:
+			if len(data) == 0 {
+				// A backend may deliver an empty datagram; it carries no message type.
+				continue
+			}
 			msgType := data[0]
 			if established {
 				switch msgType {
